@@ -19,7 +19,7 @@ def run(tier):
     # collected at the end; they share the machine with the whole-program batches below
     from concurrent.futures import ThreadPoolExecutor
     r0 = decdiff.candidates(tier)[1]
-    pool = ThreadPoolExecutor(max_workers=10)
+    pool = ThreadPoolExecutor(max_workers=12)
     futs = {}
     def fn_leg(variant, leg, extra_streams):
         try:
@@ -41,7 +41,7 @@ def run(tier):
     from lib import bzgen
     aligned20 = [bzgen.build([([decdiff.all20_block(110, k)], 1)])[0] for k in range(0, 32, (2 if quick else 1))]
     for variant in ('asan', 'msan'):
-        for leg in ('c14', 'c20', 'c01', 'c04', 'c09'):
+        for leg in ('c14', 'c20', 'c01', 'c04', 'c09', 'bwt'):
             futs[(variant, leg)] = pool.submit(fn_leg, variant, leg, valid + some_bad + aligned20)
     # whole program, decompression candidates
     r = decdiff.run_all(tier, variant='asan')
@@ -87,7 +87,7 @@ def run(tier):
         if stats.get('timeout'):
             chk.cap('deadline: function-level leg %s/%s stopped after %s s' % (leg, variant, stats.get('wall_s')))
             continue
-        k = {'c14': 'scan_calls', 'c20': 'vectors', 'c01': 'inputs', 'c04': 'sequences', 'c09': 'retrieve_runs'}[leg]
+        k = {'c14': 'scan_calls', 'c20': 'vectors', 'c01': 'inputs', 'c04': 'sequences', 'c09': 'retrieve_runs', 'bwt': 'strings'}[leg]
         chk.leg(name, cases=stats.get(k, 0), wall_s=stats.get('wall_s'), exit=stats.get('exit'))
         total += stats.get(k, 0)
         distinct += stats.get(k, 0)
@@ -97,7 +97,7 @@ def run(tier):
     pool.shutdown(wait=False)
     chk.cov.update({'evaluations': total, 'distinct_nontrivial': distinct,
                     'rule': 'the candidate sets of C05-C07 (x2 configurations), the compression corpus of C01/C02 (compress + decompress) under ASan+UBSan '
-                            'whole-program builds (plus heap canaries of the harness allocator); the function-level enumerations of C01/C04/C09/C14/C20 '
+                            'whole-program builds (plus heap canaries of the harness allocator); the function-level enumerations of C01 (codec chain and divbwt)/C04/C09/C14/C20 '
                             'under ASan+UBSan and under MSan; oracle: no sanitizer report, no crash'})
     chk.sample({'decompress_candidates': len(r['cands']), 'first': r['cands'][0][0], 'last': r['cands'][-1][0]})
     chk.assumptions += ['sanitizers only see what the enumerated inputs execute; inputs outside the scopes are not covered',
